@@ -673,8 +673,8 @@ PROB_MENU = [
 DIR_MENU = [[(0.0, 4), (1.0, 1), (2.0, 2)], [(2.0, 1), (0.0, 1), (1.0, 1)], [(0.0, 3), (1.0, 1)]]
 CLASS_MENU = [(0.0, 1.0), (1.0, 2.0), (2.0, 0.0), (1.0, 1.0), (0.0, 7.0)]
 JOIN_MENU = [(0.0, 1.0, 5.0), (1.0, 2.0, 1.0), (2.0, 7.0, 0.0)]
-SHIFT_MENU = [(0.5, 0.001), (-0.25, 0.125), (2.0, 0.001), (0.0, 0.001)]
-X0_MENU = [(0.0, None), (0.5, 11), (-1.0, None), (3, 5)]
+SHIFT_MENU = [(0.5, 0.001), (-0.25, 0.125), (2.0, 0.001), (0.0, 0.001), (1.5, 0.0)]      # alpha = 0 is legal
+X0_MENU = [(0.0, None), (0.5, 11), (-1.0, None), (3, 5), (0.25, 0)]      # random_state = 0 is a seed, not 'no seed'
 
 
 def window_cases(rng, container, cells, labels, w, f, t, seedbase, rich):
